@@ -114,3 +114,28 @@ Theorem c15_n0 :
     get_validator (effective_validators srt iter st minv maxn []) interval cpts t = Panic DivZero.
 Proof. exact n0. Qed.
 Print Assumptions c15_n0.
+
+(* ---- The slot arithmetic of the model is the code's (translator tools/gofrag) ------------------
+   VerifGen.FragState.getValidatorOrder is GENERATED from getValidatorOrder
+   (protocol/state/checkpoint.go) on every run; its first parameter is the configuration value
+   consensus.ActiveNetParams.BlockTimeInterval.  C15/Tie.v: [u64 x] = x < 2^64; [code_view] maps
+   Ok o to Some o and a panic to None. *)
+From Coq Require Import ZArith.
+From VerifGen Require Import FragState.
+From C15 Require Import Tie.
+
+(* TIE: same value and same panics as the hand-written validator_order, all uint64 inputs *)
+Theorem c15_tie_getValidatorOrder : forall interval start t n,
+  u64 interval -> u64 start -> u64 t -> u64 n ->
+  getValidatorOrder (Z.of_N interval) (Z.of_N start) (Z.of_N t) (Z.of_N n) =
+  code_view (validator_order interval start t n).
+Proof. exact tie_validator_order. Qed.
+Print Assumptions c15_tie_getValidatorOrder.
+
+(* SPEC: without wrap-around of n * interval the slot is ((t - start) / interval) mod n, no panic *)
+Theorem c15_code_getValidatorOrder : forall interval start t n,
+  (1 <= n)%N -> (1 <= interval)%N -> (n * interval < two64)%N -> (start <= t)%N -> u64 t ->
+  getValidatorOrder (Z.of_N interval) (Z.of_N start) (Z.of_N t) (Z.of_N n) =
+  Some (Z.of_N (((t - start) / interval) mod n)%N).
+Proof. exact getValidatorOrder_spec. Qed.
+Print Assumptions c15_code_getValidatorOrder.
